@@ -155,3 +155,37 @@ func addChoiceGrafts(r *rand.Rand, set *gen.Set) {
 		}
 	}
 }
+
+// addIONamed puts ordinary data nodes named `input` and `output` into containers, lists and cases
+// (outside rpc/action these are names like any other; inside an rpc input they sit beside nothing
+// special either).
+func addIONamed(r *rand.Rand, set *gen.Set) {
+	var rec func(n *gen.Node, inGrouping bool)
+	rec = func(n *gen.Node, inGrouping bool) {
+		switch n.Kw {
+		case "container", "list", "case", "input", "output", "notification":
+			if !inGrouping && r.Intn(5) == 0 {
+				has := map[string]bool{}
+				for _, c := range n.Kids {
+					has[c.Arg] = true
+				}
+				if !has["input"] && r.Intn(2) == 0 {
+					n.Kids = append(n.Kids, leafNode("input"))
+				}
+				if !has["output"] {
+					c := &gen.Node{Kw: "container", Arg: "output"}
+					c.Kids = append(c.Kids, leafNode("input"))
+					n.Kids = append(n.Kids, c)
+				}
+			}
+		}
+		for _, c := range n.Kids {
+			if c.Kw != "augment" && c.Kw != "deviation" {
+				rec(c, inGrouping || c.Kw == "grouping")
+			}
+		}
+	}
+	for _, m := range set.Mods {
+		rec(m.Body, false)
+	}
+}
